@@ -89,6 +89,28 @@ func LoadWorld() (*World, error) {
 	}
 	w.loadSecs = time.Since(t0).Seconds()
 	detachStaleContracts(w)
+	for _, c := range w.contracts {
+		other := false
+		for _, p := range c.Serves {
+			if p != "C18" && p != "C20" {
+				other = true
+			}
+		}
+		for _, cl := range c.Clauses {
+			for _, p := range cl.Props {
+				if p != "C18" && p != "C20" {
+					other = true
+				}
+			}
+		}
+		if other {
+			for _, cl := range c.Clauses {
+				if len(cl.Props) == 0 {
+					cl.SkipSweep = true
+				}
+			}
+		}
+	}
 	return w, nil
 }
 
